@@ -58,8 +58,15 @@ def main(argv):
         shutil.rmtree(scratch, ignore_errors=True)
         import hashlib
         shutil.rmtree('/tmp/verif_coq_' + hashlib.blake2b(os.path.realpath(scratch).encode(), digest_size=5).hexdigest(), ignore_errors=True)
+        with open(os.path.join(d, 'result.json'), 'w') as f:   # one file per seed: parallel runs do not overwrite each other
+            json.dump(results[name], f, indent=1)
+        merged = {}
+        for n2 in sorted(os.listdir(sd)):
+            rp = os.path.join(sd, n2, 'result.json')
+            if os.path.exists(rp):
+                merged[n2] = json.load(open(rp))
         with open(res_path, 'w') as f:
-            json.dump(results, f, indent=1)
+            json.dump(merged, f, indent=1)
     # restore evidence of the unchanged tree
     return 0
 
